@@ -4,6 +4,7 @@ package stanza
 
 import (
 	"fmt"
+	"reflect"
 	"strings"
 	"testing"
 
@@ -209,6 +210,17 @@ func c17canon(q *UnAckQueue, ref *c17ref) string {
 	}
 	if len(ref.items) > 0 && ref.lastStz == ref.items[len(ref.items)-1] {
 		sb.WriteString("L")
+	}
+	// any further scalar bookkeeping of the queue (e.g. a persistent sequence counter) is part of the state
+	rv := reflect.ValueOf(q).Elem()
+	for i := 0; i < rv.NumField(); i++ {
+		f := rv.Field(i)
+		switch f.Kind() {
+		case reflect.Int, reflect.Int64, reflect.Int32, reflect.Uint, reflect.Uint64:
+			fmt.Fprintf(&sb, "|%s=%v", rv.Type().Field(i).Name, f)
+		case reflect.Bool:
+			fmt.Fprintf(&sb, "|%s=%v", rv.Type().Field(i).Name, f.Bool())
+		}
 	}
 	return sb.String()
 }
